@@ -546,6 +546,22 @@ def catalogue_c10(seed, tier, rng):
         c.add("viewshed", "viewshed", [R("elev", dt, lay, shape=(5, 6), res=False, cx=1.0, cy=1.0, nonfinite=False)],
               {"x": 2.0, "y": 2.0, "observer_elev": 3}, identity="viewshed", heavy=True)
 
+    # helpers that read georeferencing; custom statistics; 3-D crosstab
+    for dt, lay in some(2, native=False):
+        c.add("helpers", "calc_cellsize", [R("elev", dt, lay, scalar_res=True)], {}, identity="own")
+        c.add("helpers", "calc_cellsize", [R("elev", dt, lay)], {}, identity="own")
+        c.add("helpers", "calc_cellsize", [R("elev", dt, lay, res=False, cx=1.0, cy=1.0, nonfinite=False)], {}, identity="own")
+    for dt, lay in some(2, native=False):
+        c.add("zonal", "zonal_stats_custom", [R("cats", "i4", lay), R("elev", dt, "C")], {"stats_funcs": ["dbl_sum", "rng"]},
+              identity="own")
+    v3 = c.raster("cube_f8", {"data": rs.randint(0, 5, (3, H0, W0)).astype("f8"), "dims": ["layer", "y", "x"],
+                              "coords": {"layer": np.array([10, 20, 30]), "y": 0.0 + 3.0 * np.arange(H0), "x": 0.0 + 2.0 * np.arange(W0)},
+                              "scalar_coords": {"spatial_ref": 0}, "attrs": _attrs(2.0, 3.0), "name": None, "layout": "C", "chunks": None})
+    c.add("zonal", "zonal_crosstab", [R("cats", "i4", "C"), v3], {"layer": 0, "agg": "count"}, identity="own")
+    c.add("zonal", "zonal_crosstab", [R("cats", "i4", "F"), v3], {"layer": 0, "agg": "mean"}, identity="own")
+    c.add("dask", "zonal_crosstab", [R("cats", "i4", "C"), v3], {"layer": 0, "agg": "count"}, backend="dask", identity="own",
+          chunks={R("cats", "i4", "C"): [[3, 3], [7]], v3: [[1, 2], [6], [3, 4]]})
+
     # failing calls: the library rejects the arguments - the inputs must be untouched all the same
     for dt, lay in some(2, native=False):
         c.add("failing", "focal_apply", [R("elev", dt, lay)], {"kernel": np.ones((2, 3)), "func": "mean"},
